@@ -336,6 +336,114 @@ Example C08_bytes_dropped :
   C08_bytes_sends C08_dg_response = Some [].
 Proof. vm_compute. repeat split. eexists. repeat split. Qed.
 
+(* ================================================================================================
+   The bytes PUT ON THE WIRE (proofs/ServerEncode.v): the server model composed with the codec
+   model's encoder (bencode.Marshal of krpc.Msg: Krpc.encode_msg) and decoder.
+   Hypotheses (see Props/C01.v, C01_reply_encodes, for what each one stands for): sha1_ok,
+   wf_store_items relative to a store invariant store_ok, the inductive invariant EncInv (table ports
+   below 65536, store_ok), enc_event (source / AddNode ports below 65536; the decoded message is what
+   the decoder delivers; the caller's arguments of an own query are encodable).
+   ================================================================================================ *)
+From Dht Require Import Bencode ServerEncode.
+
+Section C08Wire.
+  Variable Store : Type.
+  Variable w_put : Store -> witem -> Z -> Store * put_result.
+  Variable w_get : Store -> bytes -> Z -> Store * get_result.
+  Variable sha1 : bytes -> bytes.
+  Variable id_secure : N -> bytes -> bool.
+  Variable cfg : config.
+  Variable store_ok : Store -> Prop.
+
+  Notation sstate := (sstate Store).
+  Notation step := (step Store w_put w_get sha1 id_secure cfg).
+  Notation SR := (SR Store).
+
+  (* every datagram of every step is well-formed in the codec's sense (C15: Krpc.wf_msg) *)
+  Theorem C08_sent_messages_wf (s : sstate) e ch s' out dst m kind :
+    wf_cfg cfg -> sha1_ok sha1 -> wf_store_items Store w_put w_get store_ok ->
+    Inv Store cfg s -> EncInv Store store_ok s -> wf_event e -> enc_event e ->
+    step s e ch = SR s' out -> In (ESend dst m kind) out -> Krpc.wf_msg m.
+  Proof. exact (server_msgs_wf Store w_put w_get sha1 id_secure cfg store_ok s e ch s' out dst m kind). Qed.
+
+  (* the bytes of every datagram the model emits decode back to EXACTLY the model's message: equality
+     of Msg.msg records (with either NodeInfo decoder); at the level the codec observes (xmsg: msg plus
+     the three nil-vs-empty flags) the flags come back in the normal form x_of_msg — a.salt and r.v
+     non-nil iff non-empty, ip nil iff the whole NodeAddr is the zero value *)
+  Theorem C08_wire_roundtrip (s : sstate) e ch s' out dst m kind :
+    wf_cfg cfg -> sha1_ok sha1 -> wf_store_items Store w_put w_get store_ok ->
+    Inv Store cfg s -> EncInv Store store_ok s -> wf_event e -> enc_event e ->
+    step s e ch = SR s' out -> In (ESend dst m kind) out ->
+    forall b, encode_msg m = Some b ->
+      decode_msg_fixed b = DOk m /\ decode_xmsg_fixed b = DOk (x_of_msg m) /\ decode_msg_pinned b = DOk m.
+  Proof. exact (ServerEncode.C08_wire_roundtrip Store w_put w_get sha1 id_secure cfg store_ok s e ch s' out dst m kind). Qed.
+
+  (* end to end over bytes: a datagram `bin` from `src` that elicits a send — the send goes to src, the
+     model's message does encode, the bytes decode to that very message, and its transaction id is the
+     one of the message `bin` decoded to (a query): `t` is echoed byte for byte *)
+  Theorem C08_t_echo_bytes (s : sstate) src (bin : bytes) ch s' out d rm k :
+    wf_cfg cfg -> sha1_ok sha1 -> wf_store_items Store w_put w_get store_ok ->
+    Inv Store cfg s -> EncInv Store store_ok s ->
+    wf_addr src -> (port src < 65536)%N -> (N.of_nat (List.length bin) <= max_str_len)%N ->
+    step s (packet_of_bytes src bin) ch = SR s' out -> In (ESend d rm k) out ->
+    d = src /\
+    exists min bout mout,
+      decoded bin = Some min /\ m_y min = s_q /\
+      encode_msg rm = Some bout /\ decode_msg_fixed bout = DOk mout /\ mout = rm /\ m_t mout = m_t min.
+  Proof. exact (ServerEncode.C08_t_echo_bytes Store w_put w_get sha1 id_secure cfg store_ok s src bin ch s' out d rm k). Qed.
+End C08Wire.
+
+(* ---- concrete datagrams in, concrete datagrams out (state sE of ServerEncode.v: the parameters of
+        ServerExamples.v, two pings answered by an IPv4 and an IPv6 node; s0 itself has no good
+        contact to offer).  Hypotheses of the theorems on this instance: C01_encode_hypotheses. ---- *)
+Definition C08_wire_check (r : step_result unit) (tin : bytes)
+  : option (addr * send_kind * bytes * bool * bytes * bool) :=
+  match r with
+  | Server.SR _ _ [ESend d m k] =>
+      match encode_msg m with
+      | Some b =>
+          match decode_msg_fixed b with
+          | DOk m' =>
+              (* destination, kind, bytes, decoded message re-encodes to the same bytes, its t, t echoed *)
+              Some (d, k, b, match encode_msg m' with Some b' => bytes_eqb b' b | None => false end,
+                    m_t m', bytes_eqb (m_t m') tin)
+          | _ => None
+          end
+      | None => None
+      end
+  | _ => None
+  end.
+
+(* find_node with want [n4; n6]: the reply carries `nodes` (26 bytes) and `nodes6` (38 bytes) *)
+Example C08_find_node_wire :
+  (exists m, decoded dgE_find_node = Some m /\ m_t m = ascii_bytes "aa" /\ m_q m = s_find_node) /\
+  C08_wire_check (stepE sE (packet_of_bytes srcE dgE_find_node) chE) (ascii_bytes "aa")
+  = Some (srcE, SReply, wireE_find_node, true, ascii_bytes "aa", true).
+Proof. vm_compute. split; [eexists; repeat split | reflexivity]. Qed.
+
+(* the bytes decode to exactly the message of the model *)
+Example C08_find_node_wire_decodes :
+  match stepE sE (packet_of_bytes srcE dgE_find_node) chE with
+  | Server.SR _ _ [ESend _ m _] =>
+      decode_msg_fixed wireE_find_node = DOk m /\
+      option_map r_nodes (m_r m) = Some (Some [niA]) /\ option_map r_nodes6 (m_r m) = Some (Some [niB])
+  | _ => False
+  end.
+Proof. vm_compute. repeat split. Qed.
+
+(* the 203 error for announce_peer without arguments *)
+Example C08_error_203_wire :
+  C08_wire_check (stepE sE (packet_of_bytes srcE dgE_announce) no_choice) (ascii_bytes "aa")
+  = Some (srcE, SError, wireE_203, true, ascii_bytes "aa", true) /\
+  decode_msg_fixed wireE_203 = DOk (error_msg (ascii_bytes "aa") err_missing_args).
+Proof. vm_compute. split; reflexivity. Qed.
+
+(* why `port < 65536` is a hypothesis: a contact recorded under port 65536 + 7 (the model's ports are
+   unbounded; a UDP socket never reports one) is offered as 65543 and comes back from the wire as 7 *)
+Example C08_roundtrip_needs_port_bound :
+  Forall (fun ec => wf_event (fst ec)) evsP /\ ports_sent_and_decoded = Some ([65543%Z], [7%Z]).
+Proof. exact roundtrip_needs_port_bound. Qed.
+
 Print Assumptions C08_dest_and_t.
 Print Assumptions C08_at_most_one.
 Print Assumptions C08_silent_on_non_query.
@@ -358,3 +466,10 @@ Print Assumptions C08_bytes_undecodable_total.
 Print Assumptions C08_bytes_announce_203.
 Print Assumptions C08_bytes_trailing_answered.
 Print Assumptions C08_bytes_dropped.
+Print Assumptions C08_sent_messages_wf.
+Print Assumptions C08_wire_roundtrip.
+Print Assumptions C08_t_echo_bytes.
+Print Assumptions C08_find_node_wire.
+Print Assumptions C08_find_node_wire_decodes.
+Print Assumptions C08_error_203_wire.
+Print Assumptions C08_roundtrip_needs_port_bound.
